@@ -933,6 +933,15 @@ impl Error {
         }
     }
 
+    /// True for failures of the budget or of the underlying reader. Unlike a scan error in
+    /// trailing garbage after a document end, these must never be ignored.
+    pub(crate) fn is_budget_or_io(&self) -> bool {
+        matches!(
+            self.without_snippet(),
+            Error::Budget { .. } | Error::IOError { .. }
+        )
+    }
+
     /// Provide "no snippet" version for cases when snippet rendering is not  desired.
     pub fn without_snippet(&self) -> &Self {
         match self {
